@@ -357,6 +357,126 @@ static void encode(const json& v)
     }
 }
 
+static int wrapper_id(const std::string& w)
+{
+    return w == "plain" ? 0 : w == "init" ? 1 : w == "dont_move" ? 2
+           : w == "init_dont_move"        ? 3
+                                          : 4;
+}
+
+// one cursor-based accessor call (Cursor.tla transition)
+static void cursor_call(const json& v)
+{
+    auto& R = registry::get();
+    const std::string msg = v["msg"].get<std::string>();
+    const std::size_t v0 = v["v0"].get<std::size_t>();
+    const std::size_t size = v["size"].get<std::size_t>();
+    bool ext = false;
+    for(const auto& e : v["ext"])
+        ext = ext || e.get<int>() != 0;
+    bytes pre = to_bytes(v["pre"]);
+    bytes post = to_bytes(v["post"]);
+    pre.resize(v0 + size);
+    post.resize(v0 + size);
+    const std::string w = v["w"].get<std::string>();
+    const bool set = v["set"].get<bool>();
+    const bool legal = v["legal"].get<bool>();
+    const std::string key = msg + ":" + join(v["level"]) + ":"
+                            + v["name"].get<std::string>();
+    const auto ipv = ip0(v["ip"]);
+    const int* ip = ipv.data();
+    const auto& mo = R.members.at(key);
+    region reg(pre.size(), true);
+    reg.load(pre);
+    char* p = reg.data() + v0;
+    const long cur_in = v["cur"].get<long>();
+    std::ptrdiff_t cur = cur_in < 0 ? cur_unset : cur_in - (long)v0;
+    cursor_ret ret;
+    const bytes val = to_bytes(v["val"]);
+    const int wid = wrapper_id(w);
+    rep.note_distinct(key + w + std::to_string(cur_in) + (set ? "s" : "g") + hex(pre));
+    std::string err = attempt(
+        [&]
+        {
+            if(set)
+                mo.cset(p, size, ip, wid, cur, val);
+            else
+                ret = mo.cget(p, size, ip, wid, cur);
+        });
+    json cs = {{"msg", msg}, {"key", key}, {"w", w}, {"set", set},
+               {"cur", cur_in}, {"ip", v["ip"]}, {"schema", g_schema},
+               {"ext", ext}, {"legal", legal}, {"mkind", v["mkind"]}};
+    const std::string sig = std::string("cursor/") + w + "/"
+                            + v["mkind"].get<std::string>() + "/"
+                            + (set ? "set" : "get") + "/";
+    const std::string tail = "/" + g_schema + ":" + key;
+    if(!legal)
+    {
+        // property: must be reported through the assertion handler
+        if(err.empty())
+            rep.mismatch(
+                sig + "unreported" + tail,
+                "cursor at " + std::to_string(cur_in)
+                    + " is not where the member requires it, yet the call was "
+                      "not reported (cursor now "
+                    + std::to_string(cur + (long)v0) + ")",
+                cs);
+        else if(g_segv)
+            rep.mismatch(sig + "segv" + tail, err, cs);
+        else
+            rep.ok("cursor-illegal-reported");
+        return;
+    }
+    if(!err.empty())
+    {
+        rep.mismatch(sig + "trap" + tail, "legal call: " + err, cs);
+        return;
+    }
+    const long post_cur = v["post_cur"].get<long>();
+    const long got_cur = cur == cur_unset ? -1 : (long)(cur + (std::ptrdiff_t)v0);
+    if(got_cur != post_cur)
+    {
+        cs["got_cur"] = got_cur;
+        cs["post_cur"] = post_cur;
+        rep.mismatch(
+            sig + "pos" + tail,
+            "cursor left at " + std::to_string(got_cur) + ", documented position "
+                + std::to_string(post_cur),
+            cs);
+    }
+    else
+        rep.ok("cursor-pos");
+    if(reg.dump() != post)
+        rep.mismatch(sig + "bytes" + tail, "buffer differs after the call", cs);
+    else
+        rep.ok("cursor-bytes");
+    const json& er = v["ret"];
+    const std::string what = er["what"].get<std::string>();
+    if(what == "none")
+        return;
+    bool good = true;
+    std::string d;
+    if(what == "value")
+    {
+        good = ret.what == 1 && ret.value == to_bytes(er["bytes"]);
+        d = "value " + hex(ret.value) + " vs random access " + hex(to_bytes(er["bytes"]));
+    }
+    else
+    {
+        good = ret.addr + (std::ptrdiff_t)v0 == er["addr"].get<std::ptrdiff_t>();
+        d = "view at " + std::to_string(ret.addr + v0) + " vs random access "
+            + std::to_string(er["addr"].get<long>());
+        if(what == "group")
+            good = good && ret.what == 3 && ret.n == er["n"].get<std::uint64_t>();
+        if(what == "data")
+            good = good && ret.what == 4 && ret.value == to_bytes(er["bytes"]);
+    }
+    if(!good)
+        rep.mismatch(sig + "ret" + tail, "cursor access returned " + d, cs);
+    else
+        rep.ok("cursor-ret");
+}
+
 int main(int argc, char** argv)
 {
     install_handlers();
@@ -372,6 +492,8 @@ int main(int argc, char** argv)
                     decode(v);
                 else if(k == "encode")
                     encode(v);
+                else if(k == "cursor")
+                    cursor_call(v);
             });
         rep.finish();
         return 0;
